@@ -779,6 +779,9 @@ func (w *World) ev(kind, key string) {
 func (w *World) eventHandler() turn.EventHandler {
 	return turn.EventHandler{
 		OnAllocationCreated: func(src, _ net.Addr, _, user, _ string, relay net.Addr, _ int) {
+			if w.gate != nil {
+				w.gate("callout.alloccreated")
+			}
 			w.evMu.Lock()
 			w.held[user]++
 			w.evMu.Unlock()
